@@ -252,6 +252,21 @@ func runC08(w *W) {
 		judge("boundary-offset", []byte(`{"a":"`+pad+`"}`+"\r\n\n"+`{"b":2}`))
 		judge("boundary-offset-bad", []byte(`{"a":"`+pad+`"}`+"\n"+`{"b":2} [3]`))
 	}
+	// a line break that is the only thing stage 1 has to report in its 64-byte block: long runs of
+	// blanks (spaces, tabs, CR) on both sides of the LF, at every alignment; as a valid separator, as
+	// white-space-only lines, and inside a document that spans the lines (must fail)
+	for a := 0; a < 200; a += 1 + a/70*6 {
+		for _, bn := range []int{0, 1, 63, 64, 65, 100, 130} {
+			lead := strings.Repeat(" ", a)
+			trail := strings.Repeat(" ", bn)
+			tabs := strings.Repeat("\t", bn)
+			judge("blank-padded-break", []byte(`{"a":1}`+lead+"\n"+trail+`{"b":2}`))
+			judge("blank-padded-break", []byte(`{"a":1}`+lead+"\r\n"+tabs+`[2]`+"\n"))
+			judge("blank-padded-break", []byte(`[1]`+lead+"\n"+trail+"\n"+tabs+"\r\n"+lead+`[2]`))
+			judge("blank-padded-break-bad", []byte(`{"a":1,`+lead+"\n"+trail+`"b":2}`))
+			judge("blank-padded-break-bad", []byte(`[4,`+lead+"\n"+tabs+`5]`+"\n[6]"))
+		}
+	}
 	for _, base := range []int{1408, 2816} {
 		for d := -6; d <= 6; d++ {
 			// "[0]\n" contributes 4 structurals ('[' '0' ']' LF) per line
